@@ -209,8 +209,9 @@ func LabelStacks() []bgp.MPLSLabelStack {
 		*bgp.NewMPLSLabelStack(0xfffff),
 		*bgp.NewMPLSLabelStack(16, 17),
 		*bgp.NewMPLSLabelStack(0xfffff, 0xffffe, 1),
-		*bgp.NewMPLSLabelStack(3, 0),  // explicit-null at the bottom
-		*bgp.NewMPLSLabelStack(0, 16), // explicit-null on top (RFC 4182)
+		*bgp.NewMPLSLabelStack(3, 0),        // explicit-null at the bottom
+		*bgp.NewMPLSLabelStack(0, 16),       // explicit-null on top (RFC 4182)
+		*bgp.NewMPLSLabelStack(0x80000, 16), // 0x80000<<4 == 0x800000, the wire form of the withdraw label
 		*bgp.NewMPLSLabelStack(bgp.WITHDRAW_LABEL),
 	}
 }
